@@ -1,4 +1,5 @@
 import AcraModel.Sql.RedactLemmas
+import AcraModel.Sql.ShapeLemmas
 import AcraModel.Sql.LogModel
 /-!
 # C16 — literal values from statements never appear in logs nor in the redacted form
@@ -139,6 +140,32 @@ theorem redact_no_literals (valid : Validator) (t : Tree) (h : covered t = true)
   unfold redact maskLiterals normalize
   exact maskWalk_lits tableFacts _ _ _ (walk_covered tableFacts valid _ false t _ h)
 
+/-- what the shape proofs use from the regenerated tables: only literal kinds are converted or masked -/
+theorem shapeFacts : ShapeFacts where
+  masked_lit := by
+    intro ty h
+    have hall : maskedKinds.all (fun x => literalKinds.contains x) = true := by decide
+    rw [List.all_eq_true] at hall
+    exact hall ty (by simpa using h)
+  converted_lit := by
+    intro ty h
+    have hall : convertedKinds.all (fun x => literalKinds.contains x) = true := by decide
+    rw [List.all_eq_true] at hall
+    exact hall ty (by simpa using h)
+  valarg_dec := by decide
+
+/-- **Redaction keeps the statement's shape.** For every statement tree (covered or not) and whatever
+`sqltypes.NewValue` accepts, the redacted tree and the original have the same shape: every node, field,
+identifier, operator and keyword is unchanged, a placeholder stands exactly where a literal (or an older
+placeholder) stood, and an IN list of values is still a list of values (`::name` or a tuple of placeholders). -/
+theorem redact_shape (valid : Validator) (t : Tree) : shape (redact valid t) = shape t := by
+  unfold redact maskLiterals normalize
+  rw [(maskWalk_sameLook shapeFacts _ _ _).shape_eq, (walk_sameLook shapeFacts valid _ false t _).shape_eq]
+
+/-- the same for `Normalize` alone, with any prefix -/
+theorem normalize_shape (valid : Validator) (pfx : Bytes) (t : Tree) : shape (normalize valid pfx t) = shape t :=
+  (walk_sameLook shapeFacts valid pfx false t _).shape_eq
+
 /-- `Normalize` alone (the first pass, any prefix) never un-covers a statement: nothing it rewrites can
 hide a literal from the masking pass. -/
 theorem normalize_keeps_covered (valid : Validator) (pfx : Bytes) (t : Tree) (h : covered t = true) :
@@ -223,6 +250,8 @@ def exampleTree : Tree :=
 example : covered exampleTree = true := by decide
 example : lits exampleTree = [[65, 66], [55]] := by decide
 example : lits (redact (fun _ _ => true) exampleTree) = [] := redact_no_literals _ _ (by decide)
+example : shape (redact (fun _ _ => false) exampleTree) = shape exampleTree := redact_shape _ _
+example : (shape exampleTree == exampleTree) = false := by decide
 
 open LogModel in
 /-- a configuration in which text is printed: debug level, a deny-by-table handler that blocks -/
